@@ -388,6 +388,11 @@ impl<A: IntoV, B: IntoV, C: IntoV, D: IntoV, E: IntoV, F: IntoV> IntoV for (A, B
         V::T(vec![self.0.into_v(), self.1.into_v(), self.2.into_v(), self.3.into_v(), self.4.into_v(), self.5.into_v()])
     }
 }
+impl<A: IntoV, B: IntoV, C: IntoV, D: IntoV, E: IntoV, F: IntoV, G: IntoV> IntoV for (A, B, C, D, E, F, G) {
+    fn into_v(self) -> V {
+        V::T(vec![self.0.into_v(), self.1.into_v(), self.2.into_v(), self.3.into_v(), self.4.into_v(), self.5.into_v(), self.6.into_v()])
+    }
+}
 impl<T: IntoV> IntoV for ruint::ToUintError<T> {
     fn into_v(self) -> V {
         match self {
